@@ -72,7 +72,48 @@ def run(seeded, props):
     return 0
 
 
+def run_scratch(seeded, props):
+    """Like `run`, but on a scratch worktree of /repo and a scratch copy of the harness, so that
+    /repo is never touched (several of these can run at once)."""
+    import shutil
+    import tempfile
+    seeded = os.path.abspath(seeded)
+    meta = json.load(open(os.path.join(seeded, 'meta.json')))
+    props = props or [meta['property']]
+    base = tempfile.mkdtemp(prefix='seedrun-', dir='/tmp')
+    repo = os.path.join(base, 'repo')
+    try:
+        rc, o = sh('git worktree add --detach %s HEAD -q' % repo, cwd='/repo')
+        if rc != 0:
+            print('cannot create scratch worktree: ' + o)
+            return 2
+        rc, o = sh('git apply %s' % os.path.join(seeded, 'patch.diff'), cwd=repo)
+        if rc != 0:
+            print('patch does not apply:\n' + o)
+            return 2
+        harness = os.path.join(base, 'harness')
+        shutil.copytree(os.path.join(ROOT, 'harness'), harness, ignore=shutil.ignore_patterns('target'))
+        cargo = open(os.path.join(harness, 'Cargo.toml')).read().replace('path = "/repo"', 'path = "%s"' % repo)
+        open(os.path.join(harness, 'Cargo.toml'), 'w').write(cargo)
+        env = dict(os.environ, VERIF_HARNESS_DIR=harness, VERIF_OUT_DIR=os.path.join(base, 'out'),
+                   VERIF_EVIDENCE_DIR=os.path.join(base, 'evidence'))
+        codes = {}
+        for p in props:
+            r = subprocess.run('%s/bin/check %s --tier quick' % (ROOT, p), shell=True, cwd=ROOT, env=env,
+                               stdout=subprocess.PIPE, stderr=subprocess.STDOUT, text=True)
+            lines = [l for l in r.stdout.splitlines() if l.startswith(('PASS', 'FAIL', 'TOOL-ERROR', '  failing clauses', 'NOTE'))]
+            codes[p] = r.returncode
+            print('%s %s exit=%d %s' % (os.path.basename(seeded), p, r.returncode, ' | '.join(lines[-3:])[:500]), flush=True)
+        print(json.dumps(codes))
+        return 0
+    finally:
+        sh('git worktree remove --force %s' % repo, cwd='/repo')
+        shutil.rmtree(base, ignore_errors=True)
+
+
 if __name__ == '__main__':
+    if len(sys.argv) >= 3 and sys.argv[1] == 'run-scratch':
+        sys.exit(run_scratch(sys.argv[2], sys.argv[3:]))
     if len(sys.argv) >= 3 and sys.argv[1] == 'confirm':
         sys.exit(confirm(sys.argv[2]))
     if len(sys.argv) >= 3 and sys.argv[1] == 'run':
